@@ -18,8 +18,8 @@ RULE = ("case = TinyRV0 program generated against the ISA document (all 10 instr
         "a checksum case (8 x 16-bit words through ChecksumFL/CL/RTL with seeded source/sink delays); non-trivial = "
         "program executed >= 20 dynamic instructions incl. >= 1 taken branch, >= 1 load and >= 1 store, and stalls "
         "fired; distinct = case digest")
-TIERS = {"quick": {"runs": 640, "budget_s": 110, "chunk": 4},
-         "thorough": {"runs": 12000, "budget_s": 1800, "chunk": 4}}
+TIERS = {"quick": {"runs": 960, "budget_s": 110, "chunk": 4},
+         "thorough": {"runs": 60000, "budget_s": 1800, "chunk": 4}}
 REAL = ["examples.ex03_proc.ProcFL/ProcCL/ProcRTL (ctrl, dpath, drop unit, bypass queues)", "NullXcelRTL",
         "MagicMemoryCL + StallCL + DelayPipes", "interface adapters inserted by connect() (greenlets for FL)",
         "examples.ex02_cksum.ChecksumFL/CL/RTL", "schedulers"]
